@@ -191,6 +191,7 @@ pub enum CteOp {
     Columns(Vec<IdenSpec>, IterB),
     Materialized(bool),
     Query(Sub),
+    TrySetColsFromSelect(Sub),
 }
 
 #[derive(Clone, Debug, PartialEq, Serialize, Deserialize)]
@@ -1161,6 +1162,14 @@ fn apply_cte(c: &mut CommonTableExpression, op: &CteOp, cx: &mut Ctx) {
         }
         CteOp::Materialized(b) => {
             c.materialized(*b);
+        }
+        CteOp::TrySetColsFromSelect(s) => {
+            cx.sub_with_ref(s, |st| match st {
+                Stmt::Select(q) => {
+                    c.try_set_cols_from_select(q);
+                }
+                o => panic!("HARNESS: try_set_cols_from_select of {:?}", o.family()),
+            });
         }
         CteOp::Query(s) => match cx.sub_owned(s) {
             Stmt::Select(q) => {
